@@ -31,7 +31,7 @@ INV_PROP = {
 
 
 def cfg_text(nf, n, max_inputs, dirs, modes, fails, max_fail, liveness=True, panics=False, spec="Spec",
-             extra=""):
+             extra="", invariants=None):
     return f"""SPECIFICATION {spec}
 CONSTANTS
   NF = {nf}
@@ -43,7 +43,7 @@ CONSTANTS
   FailKinds <- {fails}
   MaxFail = {max_fail}
   Panics = {'TRUE' if panics else 'FALSE'}
-INVARIANTS {ALL_INV}
+INVARIANTS {ALL_INV if invariants is None else invariants}
 {'PROPERTIES Terminates' if liveness else ''}
 CHECK_DEADLOCK FALSE
 {extra}
@@ -107,7 +107,7 @@ def model_check(rep, prop):
         if not r["ok"]:
             bad = r["violated"] or ["?"]
             for inv in bad:
-                inv = "Terminates" if "Temporal" in inv else inv
+                inv = inv.split(":")[-1] if inv.startswith("Temporal:") else ("Terminates" if "Temporal" in inv else inv)
                 p = INV_PROP.get(inv, prop)
                 msg = f"TLC: {inv} violated in Sched.tla ({name}); the design itself breaks {p}"
                 m = re.search(r"Error: The behavior up to this point is:(.*?)(?:\n\d+ states generated|\Z)", r["out"], re.S)
